@@ -5,8 +5,18 @@ from vlib import Check, Rng
 
 PID = 'C17'
 THEOREMS = [
-    'Lcdb.varint32_roundtrip', 'Lcdb.varint64_roundtrip', 'Lcdb.varint32_fifth_byte_truncates', 'Lcdb.sliceRead_sliceEnc',
-    'Lcdb.fixedDec_fixedEnc', 'Lcdb.ConstsOk.editTags_ok',
+    'Lcdb.varint32_roundtrip',
+    'Lcdb.varint64_roundtrip',
+    'Lcdb.varint32_fifth_byte_truncates',
+    'Lcdb.sliceRead_sliceEnc',
+    'Lcdb.fixedDec_fixedEnc',
+    'Lcdb.ConstsOk.editTags_ok',
+    'Lcdb.C17.edit_roundtrip',
+    'Lcdb.C17.decode_total',
+    'Lcdb.C17.editDecodeGo_fuel',
+    'Lcdb.C17.decode_last_scalar_wins',
+    'Lcdb.C17.setInsert_sorted',
+    'Lcdb.C17.edit_roundtrip_needs_sorted',
 ]
 IMPORTS = ['LcdbModel.Props.C17']
 TARGETS = ['LcdbModel.Props.C17']
